@@ -10,13 +10,15 @@ SPEC = dict(
     level_text=("seeded search over configurations x histories x schedules of three REAL basic hosts on a simulated TCP network: A (under "
                 "observation), B (the peer, holding a reservation on the relay) and R (real circuit-v2 relay service); every lock, channel "
                 "operation, select and goroutine start of swarm, basic host, identify, circuit client / relay, hole punching, upgrader, "
-                "yamux, multistream is a scheduling decision. Layer A (80% of the runs): 1-4 caller tasks on A call Swarm.NewStream / "
+                "yamux, multistream is a scheduling decision. Layer A (7 of 11 runs): 1-4 caller tasks on A call Swarm.NewStream / "
                 "Swarm.DialPeer / Host.NewStream / Host.Connect / Conn.NewStream with every subset of {allow-limited, force-direct, "
                 "no-dial}, own deadlines, dial-peer timeouts and independent cancellation instants while 1-2 environment tasks make B "
                 "reachable / unreachable, create direct connections in both directions, close direct / relayed connections on either "
                 "side, flap a direct connection, close it from inside A's Connected notification or let B come back through the relay "
                 "(inbound limited connection on A); the relay is limited, short-lived "
-                "or unlimited. Layer B (20%): A and B behind simulated stateful firewalls (filtered / open / symmetric), real hole "
+                "or unlimited. Race stratum (2 of 11): 3-6 rounds in which 1-4 waiters call Swarm.NewStream without allow-limited at the "
+                "instant A's gater admits a direct connection (just before the swarm registers it), with drawn extra scheduling points "
+                "in gater, dialer and waiters (check-then-register window of the waiter list). Layer B (2 of 11): A and B behind simulated stateful firewalls (filtered / open / symmetric), real hole "
                 "punching services with the public tracer, optional link latency; the same callers on A wait for the hole punch. "
                 "History oracles over stamped invocations, notifications, gater admissions, transport dials and tracer events; "
                 "Connectedness compared with the notified connection set at robust quiescent instants. Sampling, not proof."),
